@@ -347,6 +347,17 @@ def substitute_rules(rep, repo, cmod):
             if not ok:
                 rep.violate('C10.pins', cmod, f, f'[{cond}] {ll}.reader = {rd}; {ll}.reader_pin = {rp}',
                             'substitute: an instance input line must be attached to (node_map[l.reader], l.reader_pin) of the single implementation reader, or to pin 0 of the fork created for the input', node=iff)
+    # a line of the replaced instance still records (node, pin) although node.ins was reset: it must be detached
+    # (reader = None) before remove(), otherwise Line.remove clears a slot of the re-used node that now holds another line
+    for st in walk_no_nested_funcs(in_loop):
+        if isinstance(st, ast.Expr) and isinstance(st.value, ast.Call) and norm(st.value.func).replace(' ', '') == f'{ll}.remove':
+            blk = next((getattr(p, f) for p in parents(st) for f in ('body', 'orelse') if isinstance(getattr(p, f, None), list) and any(x is st for x in getattr(p, f))), [])
+            k = next(i for i, x in enumerate(blk) if x is st)
+            ok = any(norm(x).replace(' ', '') == f'{ll}.reader=None' for x in blk[:k])
+            rep.ob('C10.pins', f'{ll}.remove() after detaching the stale reader reference', ok)
+            if not ok:
+                rep.violate('C10.pins', cmod, f, st, f'substitute: `{ll}.remove()` without `{ll}.reader = None` first: the line still records the pin of the instance node whose pin list was reset and refilled, '
+                            f'so remove() clears a slot that now belongs to another line', node=st)
     lv, ll2 = [e.id for e in out_loop.target.elts]
     for iff in [st for st in out_loop.body if isinstance(st, ast.If) and 'outs' in norm(st.test)]:
         for cond, blk in {norm(iff.test).replace(' ', ''): iff.body, 'else': iff.orelse}.items():
